@@ -475,6 +475,24 @@ def _mcall_on(v, name: str, param: str) -> bool:
     return isinstance(v, tuple) and len(v) >= 3 and v[0] == "mcall" and v[1] == name and v[2] == ("param", param)
 
 
+def _no_terms_test(v) -> Optional[Tuple[str, bool]]:
+    """Recognise 'the list <param> has no terms' in its usual spellings -> (param, polarity) ; polarity False = negated."""
+    if not isinstance(v, tuple) or not v:
+        return None
+    if v[0] == "mcall" and v[1] == "lacks_constraints" and v[2][0] == "param":
+        return (v[2][1], True)
+    if v[0] == "cmp" and v[1] in ("Eq", "NotEq", "Gt", "LtE", "Lt", "GtE") and is_const(v[3]) and v[3][1] in (0, 1):
+        l = v[2]
+        if l[0] == "call" and l[1] == "len" and len(l[2]) == 1 and l[2][0][0] == "attr" and l[2][0][2] == "terms" and l[2][0][1][0] == "param":
+            k = v[3][1]
+            truth = {("Eq", 0): True, ("NotEq", 0): False, ("Gt", 0): False, ("LtE", 0): True, ("Lt", 1): True, ("GtE", 1): False}.get((v[1], k))
+            if truth is not None:
+                return (l[2][0][1][1], truth)
+    if v[0] == "attr" and v[2] == "terms" and v[1][0] == "param":
+        return (v[1][1], False)  # truthiness of the list = 'has terms'
+    return None
+
+
 def rule_refines_order(ctx: Ctx, rule: str = "refines-order") -> None:
     """C03: PolyhedralTermList.refines - an unconstrained right side is refined by anything (decided first), an
     unconstrained left side refines nothing else; otherwise containment of (self) in (other), in that order."""
@@ -495,10 +513,10 @@ def rule_refines_order(ctx: Ctx, rule: str = "refines-order") -> None:
         for oe in (True, False):
 
             def extra(v, se=se, oe=oe):
-                if _mcall_on(v, "lacks_constraints", "self"):
-                    return const(se)
-                if _mcall_on(v, "lacks_constraints", "other"):
-                    return const(oe)
+                r = _no_terms_test(v)
+                if r is not None and r[0] in ("self", "other"):
+                    val = se if r[0] == "self" else oe
+                    return const(val if r[1] else not val)
                 return None
 
             ps = Sim(prog, fi, assume=status_assume(None, extra)).paths()
@@ -522,7 +540,10 @@ def rule_refines_order(ctx: Ctx, rule: str = "refines-order") -> None:
                     t2p = [e for e in p.calls("termlist_to_polytope")]
                     if len(t2p) == 1 and t2p[0]["args"] == (("param", "self"), ("param", "other")):
                         res = t2p[0]["result"]
-                        args = list(v[2]) + [x for _k, x in v[3]]
+                        vfi = prog.func(PTL + "verify_polytope_containment")
+                        bound = dict(zip(vfi.params, v[2]))
+                        bound.update({k_: x for k_, x in v[3]})
+                        args = [bound.get(pn) for pn in vfi.params[:4]]
                         want_args = [("item", res, i) for i in (1, 2, 3, 4)]
                         if args == want_args:
                             okc = True
